@@ -201,7 +201,7 @@ pub enum Cell {
 
 #[derive(Debug, Clone, Default)]
 pub struct Printed {
-    /// lines printed by -r (before the table)
+    /// names exported by -r (before the table), in order
     pub ordering: Vec<String>,
     /// header names without the trailing `*` column (None = no table printed)
     pub header: Option<Vec<String>>,
@@ -210,30 +210,60 @@ pub struct Printed {
     pub var_lines: Vec<Vec<(String, bool)>>,
 }
 
+/// characters that may separate the columns of a table (ASCII bar, box-drawing and full-width bars)
+const BARS: [char; 7] = ['|', '\u{2502}', '\u{2503}', '\u{2551}', '\u{a6}', '\u{ff5c}', '\u{2506}'];
+
 fn cells(line: &str) -> Vec<String> {
-    let t = line.trim_end();
-    let inner = t.strip_prefix('|').unwrap_or(t);
-    let inner = inner.strip_suffix('|').unwrap_or(inner);
-    inner.split('|').map(|c| c.trim().to_string()).collect()
+    let t = line.trim();
+    let inner = t.strip_prefix(|c: char| BARS.contains(&c)).unwrap_or(t);
+    let inner = inner.strip_suffix(|c: char| BARS.contains(&c)).unwrap_or(inner);
+    inner.split(|c: char| BARS.contains(&c)).map(|c| c.trim().to_string()).collect()
 }
 
-/// Parse the stdout of `rsbdd` (-r, -t, -v in that order of appearance).
+/// a horizontal rule: only line-drawing characters (ASCII or box-drawing), junctions and blanks
+fn is_rule(t: &str) -> bool {
+    let drawing = |c: char| matches!(c, '-' | '=' | ':' | '+' | '~') || ('\u{2500}'..='\u{257f}').contains(&c);
+    t.chars().all(|c| drawing(c) || BARS.contains(&c) || c.is_whitespace()) && t.chars().any(drawing)
+}
+
+/// The tool's own vocabulary for truth-table entries (the spellings `-f` / `-c` accept),
+/// case-insensitively.
+fn entry(x: &str) -> Option<Cell> {
+    match x.to_lowercase().as_str() {
+        "true" | "t" | "1" => Some(Cell::True),
+        "false" | "f" | "0" => Some(Cell::False),
+        "any" | "a" | "*" => Some(Cell::Any),
+        _ => None,
+    }
+}
+
+/// Read the stdout of `rsbdd` (-r, -t, -v in that order of appearance). Only the content is
+/// read; the drawing of the table is free:
+///  * a line made of line-drawing characters only is a rule and is skipped wherever it stands;
+///  * a table line starts with a column separator (`|` or a box-drawing bar); its cells are trimmed;
+///    the last column is the result column, whatever its title;
+///  * a `-v` line ends with `;` and lists names separated by commas, `*` marking "either value";
+///  * the lines before the table are the exported variable order, read the way `-o` reads an
+///    ordering file: the identifiers of the text in order of appearance.
 pub fn parse_stdout(out: &str) -> Result<Printed, String> {
     let mut p = Printed::default();
-    let mut lines = out.lines().peekable();
-    while let Some(line) = lines.next() {
-        if line.starts_with('|') {
+    let mut ordering_text = String::new();
+    for line in out.lines() {
+        let t = line.trim();
+        if t.is_empty() {
+            continue;
+        }
+        let is_var_line = t.ends_with(';');
+        if !is_var_line && is_rule(t) {
+            continue;
+        }
+        if t.starts_with(|c: char| BARS.contains(&c)) && !is_var_line {
             if p.header.is_none() {
                 let mut h = cells(line);
-                if h.last().map(|s| s.as_str()) != Some("*") {
-                    return Err(format!("table header does not end with `*`: {:?}", line));
+                if h.len() < 1 {
+                    return Err(format!("table header without columns: {:?}", line));
                 }
                 h.pop();
-                let sep = lines.next().ok_or("missing separator line after the header")?;
-                // the rule under the header: no letters or digits (its exact shape is not prescribed)
-                if sep.chars().any(|c| c.is_alphanumeric()) {
-                    return Err(format!("the line after the header is not a rule: {:?}", sep));
-                }
                 p.header = Some(h);
             } else {
                 let c = cells(line);
@@ -243,37 +273,42 @@ pub fn parse_stdout(out: &str) -> Result<Printed, String> {
                 }
                 let mut vals = Vec::new();
                 for x in &c[..n] {
-                    vals.push(match x.as_str() {
-                        "True" => Cell::True,
-                        "False" => Cell::False,
-                        "Any" => Cell::Any,
-                        o => return Err(format!("unexpected cell {:?} in row {:?}", o, line)),
-                    });
+                    vals.push(entry(x).ok_or_else(|| format!("unexpected cell {:?} in row {:?}", x, line))?);
                 }
-                let res = match c[n].as_str() {
-                    "True" => true,
-                    "False" => false,
-                    o => return Err(format!("unexpected result cell {:?}", o)),
+                let res = match entry(&c[n]) {
+                    Some(Cell::True) => true,
+                    Some(Cell::False) => false,
+                    _ => return Err(format!("unexpected result cell {:?}", c[n])),
                 };
                 p.rows.push((vals, res));
             }
-        } else if line.ends_with(';') {
-            let body = &line[..line.len() - 1];
+        } else if is_var_line {
+            let body = &t[..t.len() - 1];
             let mut v = Vec::new();
-            if !body.trim().is_empty() {
-                for item in body.split(", ") {
-                    if let Some(n) = item.strip_suffix('*') {
-                        v.push((n.to_string(), true));
-                    } else {
-                        v.push((item.to_string(), false));
-                    }
+            for item in body.split(',') {
+                let item = item.trim();
+                if item.is_empty() {
+                    continue;
+                }
+                if let Some(n) = item.strip_suffix('*') {
+                    v.push((n.trim().to_string(), true));
+                } else {
+                    v.push((item.to_string(), false));
                 }
             }
             p.var_lines.push(v);
         } else if p.header.is_none() && p.var_lines.is_empty() {
-            p.ordering.push(line.to_string());
+            ordering_text.push_str(line);
+            ordering_text.push('\n');
         } else {
             return Err(format!("unexpected line after the table: {:?}", line));
+        }
+    }
+    if !ordering_text.is_empty() {
+        let toks = crate::rlex::lex(&ordering_text).map_err(|e| format!("the lines before the table are not readable as a variable order: {}", e))?;
+        p.ordering = crate::rlex::identifiers(&toks);
+        if p.ordering.is_empty() {
+            return Err(format!("unexpected text before the table: {:?}", ordering_text));
         }
     }
     Ok(p)
